@@ -295,8 +295,40 @@ def check_flips(p, route, initial, seq):
 
 # ------------------------------------------------------------------------------------------------
 
+LAYOUT_DOCS = [
+    ("Table t {\n  id int\n  k: 'v' j: 'w'\n}\n", [['k', 'v'], ['j', 'w']]),
+    ("Table t {\n  id int\n  k: 'v' }\n", [['k', 'v']]),
+    ("Table t {\n  id int\n  k: 'v' /* c */ j: 'w' }\n", [['k', 'v'], ['j', 'w']]),
+    ("Table t {\n  k: 'v'\n  id int\n  j: 'w' // trailing\n  x int\n}\n", [['k', 'v'], ['j', 'w']]),
+    ("Table t { k: 'v'\n  id int\n}\n", [['k', 'v']]),
+    ("Table t {\n  id int\n  \"k 1\": '''v\n1''' j: 'w'\n  Note: 'n'\n}\n", [['k 1', 'v\n1'], ['j', 'w']]),
+]
+
+
+def check_layouts(p):
+    import pyparsing
+    for text, want in LAYOUT_DOCS:
+        case = {'mode': 'layout', 'text': text}
+        p['transitions'] += 1
+        try:
+            db = parse(text, True)
+        except Exception as e:
+            p['violations'].append(violation(PID, 'properties-rejected-with-option-on', case, observed=exc_info(e), detail=f'{type(e).__name__}: {str(e)[:120]} | {text!r}'))
+            continue
+        got = [[k, v] for k, v in db.tables[0].properties.items()]
+        p['evaluations'] += 1
+        p['nontrivial'].add(digest(case))
+        if got != want or db.allow_properties is not True:
+            p['violations'].append(violation(PID, 'properties-not-stored-exactly', case, expected=want, observed=got, detail=f'{text!r}: stored {got}, expected {want}'))
+        try:
+            parse(text, False)
+            p['violations'].append(violation(PID, 'properties-accepted-with-option-off', case, detail=f'{text!r} parses with the option off'))
+        except pyparsing.ParseBaseException:
+            p['outcomes']['layout/ok'] += 1
+
+
 def units(tier, seed):
-    us = []
+    us = [('layouts', None, None)]
     b = bounds(tier)
     for first in c01.DECLS:
         us.append(('same-bfs', first, b['bfs_depth']))
@@ -315,7 +347,10 @@ def units(tier, seed):
 def work(unit):
     mode, a, b = unit
     p = new_part()
-    if mode == 'same-bfs':
+    if mode == 'layouts':
+        check_layouts(p)
+        p['samples'].append({'mode': 'layout', 'text': LAYOUT_DOCS[0][0]})
+    elif mode == 'same-bfs':
         frontier = [(a,)]
         while frontier:
             nxt = []
@@ -376,6 +411,9 @@ def work(unit):
 def replay(case):
     p = new_part()
     mode = case['mode']
+    if mode == 'layout':
+        check_layouts(p)
+        return [v for v in p['violations'] if v['case'].get('text') == case.get('text')]
     if mode == 'same':
         m, order, ok = c01.state_model(tuple(case['seq']))
         check_same(p, m, order, {'mode': 'same', 'seq': case['seq']})
